@@ -474,9 +474,8 @@ fn fixtures() -> Vec<(&'static str, &'static str, &'static str)> {
         .collect()
 }
 
-fn ops_for(run: &Run) -> Vec<OpSpec> {
+fn ops_for() -> Vec<OpSpec> {
     let mut ops = vec![];
-    let _ = run;
     // --- signing, every writable format
     for (_label, fmt, file) in fixtures() {
         ops.push(OpSpec::new("sign", fmt, file, ""));
@@ -550,7 +549,7 @@ fn main() {
     run.assume("a multi-call flow (placeholder flow, add ingredient then sign) is one operation: it ends at the first call that returns an error, which must be OperationCancelled");
     run.assume("thread-cancel point is made reproducible by parking the operation inside callback k until cancel() has returned; random-delay cancels (thorough) are not schedule-controlled");
 
-    let ops = ops_for(&run);
+    let ops = ops_for();
 
     // ---- dry runs: traces + invariants -----------------------------------------------------------------
     let dry: Mutex<HashMap<OpSpec, (Vec<(String, u32, u32)>, String)>> = Mutex::new(HashMap::new());
